@@ -344,3 +344,223 @@ Proof.
     change mk_remote_port with k_remote_port. rewrite K1, K2, K3. reflexivity.
   - eexists. split; [reflexivity|]. split; [congruence|]. unfold sel_of. rewrite Ec. exact M.
 Qed.
+
+(* ---- the environ and the untrusted set after header parsing ------------------------------------------------ *)
+Definition present (key : str) (e : environ) : bool := match lookup key e with Some _ => true | None => false end.
+
+Lemma pure_fwd_env p s key : beqb key k_fwd = false -> lookup key (env (pure_fwd p s)) = lookup key (env s).
+Proof.
+  intro H. unfold pure_fwd. destruct (fwd s) as [[|c r]|]; try reflexivity. cbn [env]. apply lookup_set_other. exact H.
+Qed.
+
+Lemma fwd_get_env tph s : env (blk_fwd_get tph s) = env s.
+Proof. unfold blk_fwd_get. destruct (has tph n_fwd); reflexivity. Qed.
+
+Lemma sel_env_other p tph e key : beqb key k_xff = false -> beqb key k_xfh = false -> beqb key k_fwd = false ->
+  lookup key (env (sel_state p tph e)) = lookup key e.
+Proof.
+  intros H1 H2 H3. unfold sel_state. rewrite pure_fwd_env by exact H3. rewrite fwd_get_env.
+  apply (pre_fwd_env p tph e key H1 H2).
+Qed.
+
+Lemma sel_env_xff p tph e :
+  lookup k_xff (env (sel_state p tph e)) =
+  if has tph n_xff then match lookup k_xff e with Some raw => Some (pruned raw (Pos.to_nat p)) | None => None end
+  else lookup k_xff e.
+Proof.
+  unfold sel_state. rewrite pure_fwd_env by keq. rewrite fwd_get_env, pure_by_env, pure_port_env, pure_proto_env.
+  rewrite pure_xfh_env by keq. unfold pure_xff. cbn [init_pst env].
+  destruct (has tph n_xff); [|reflexivity]. destruct (lookup k_xff e) eqn:E; cbn [env]; [apply lookup_set_same|exact E].
+Qed.
+
+Lemma sel_env_xfh p tph e :
+  lookup k_xfh (env (sel_state p tph e)) =
+  if has tph n_xfh then match lookup k_xfh e with Some raw => Some (pruned raw (Pos.to_nat p)) | None => None end
+  else lookup k_xfh e.
+Proof.
+  unfold sel_state. rewrite pure_fwd_env by keq. rewrite fwd_get_env, pure_by_env, pure_port_env, pure_proto_env.
+  assert (L : lookup k_xfh (env (pure_xff p tph (init_pst e))) = lookup k_xfh e) by (apply pure_xff_env; keq).
+  unfold pure_xfh. rewrite L.
+  destruct (has tph n_xfh); [|exact L]. destruct (lookup k_xfh e) eqn:E; cbn [env]; [apply lookup_set_same|exact L].
+Qed.
+
+Lemma sel_env_fwd p tph e :
+  lookup k_fwd (env (sel_state p tph e)) =
+  if fwd_active tph e then Some (pruned (hdr hk_fwd e) (Pos.to_nat p)) else lookup k_fwd e.
+Proof.
+  unfold sel_state. fold (pre_fwd p tph e).
+  pose proof (pre_fwd_env p tph e k_fwd eq_refl eq_refl) as L. pose proof (pre_fwd_fwd p tph e) as F.
+  unfold fwd_active, pure_fwd, blk_fwd_get. change (trusts tph nm_fwd) with (has tph n_fwd). change hk_fwd with k_fwd.
+  destruct (has tph n_fwd); cbn [andb fwd env].
+  - unfold hdr. rewrite L. destruct (lookup k_fwd e) as [[|c r]|] eqn:E; cbn [truthy env]; try exact L.
+    apply lookup_set_same.
+  - rewrite F. exact L.
+Qed.
+
+Lemma pure_fwd_unt p s : unt (pure_fwd p s) = unt s.
+Proof. unfold pure_fwd. destruct (fwd s) as [[|c r]|]; reflexivity. Qed.
+
+Lemma sel_unt p tph e :
+  unt (sel_state p tph e) =
+  if has tph n_fwd then u_all_but_fwd
+  else {| u_for := negb (has tph n_xff && present k_xff e); u_host := negb (has tph n_xfh && present k_xfh e);
+          u_proto := negb (has tph n_xfproto); u_port := negb (has tph n_xfport); u_by := negb (has tph n_xfby);
+          u_fwd := true |}.
+Proof.
+  unfold sel_state. rewrite pure_fwd_unt. unfold blk_fwd_get. destruct (has tph n_fwd); [reflexivity|].
+  assert (L : lookup k_xfh (env (pure_xff p tph (init_pst e))) = lookup k_xfh e) by (apply pure_xff_env; keq).
+  unfold pure_by, pure_port, pure_proto, pure_xfh, present. rewrite L. unfold pure_xff. cbn [init_pst env].
+  destruct (has tph n_xfby), (has tph n_xfport), (has tph n_xfproto), (has tph n_xfh), (lookup k_xfh e),
+    (has tph n_xff), (lookup k_xff e); reflexivity.
+Qed.
+
+Lemma lookup_pop_if (b : bool) k key (e : environ) :
+  lookup key (if b then pop k e else e) = if b && beqb key k then None else lookup key e.
+Proof. destruct b; cbn [andb]; [apply lookup_pop|reflexivity]. Qed.
+
+Lemma clear_lookup e u key :
+  lookup key (clear_untrusted_headers e u) =
+  if u_fwd u && beqb key k_fwd then None
+  else if u_by u && beqb key k_xfby then None
+  else if u_port u && beqb key k_xfport then None
+  else if u_proto u && beqb key k_xfproto then None
+  else if u_host u && beqb key k_xfh then None
+  else if u_for u && beqb key k_xff then None
+  else lookup key e.
+Proof. unfold clear_untrusted_headers. rewrite !lookup_pop_if. reflexivity. Qed.
+
+Lemma not_proxy_key key : is_proxy_key key = false ->
+  beqb key k_xff = false /\ beqb key k_xfh = false /\ beqb key k_xfproto = false /\ beqb key k_xfport = false /\
+  beqb key k_xfby = false /\ beqb key k_fwd = false.
+Proof.
+  unfold is_proxy_key, proxy_keys. cbn [existsb]. intro H.
+  repeat (apply orb_false_iff in H as [? H]). repeat split; assumption.
+Qed.
+
+Lemma meta_out_proxy_key sl e key : is_proxy_key key = true -> meta_out sl e key = lookup key e.
+Proof.
+  unfold is_proxy_key, proxy_keys. cbn [existsb]. intro H.
+  repeat (apply orb_true_iff in H as [H|H]); try discriminate; apply beqb_eq in H; subst key; reflexivity.
+Qed.
+
+Lemma meta_out_ext sl e1 e2 key :
+  (forall k, is_proxy_key k = false -> lookup k e1 = lookup k e2) -> is_proxy_key key = false ->
+  meta_out sl e1 key = meta_out sl e2 key.
+Proof.
+  intros H Hk. unfold meta_out, http_host_value, final_scheme.
+  rewrite (H key Hk). rewrite (H mk_url_scheme eq_refl). reflexivity.
+Qed.
+
+Lemma list_reason_cat tph name key e c0 c : list_reason tph name key e c0 = Some c -> c = c0.
+Proof.
+  unfold list_reason. destruct (trusts tph name); [|discriminate]. destruct (lookup key e); [|discriminate].
+  destruct (cat_list_quoting s); [|discriminate]. intro H. injection H as <-. reflexivity.
+Qed.
+Lemma single_reason_cat tph name key e c1 c2 c : single_reason tph name key e c1 c2 = Some c -> c = c1 \/ c = c2.
+Proof.
+  unfold single_reason. destruct (trusts tph name); [|discriminate].
+  destruct (cat_single_quoting _); [intro H; injection H as <-; auto|].
+  destruct (cat_several_values _); [intro H; injection H as <-; auto|discriminate].
+Qed.
+
+Lemma syntax_reason_header tph e c b : syntax_reason tph e = Some c -> category_header b c = syntax_header c.
+Proof.
+  unfold syntax_reason.
+  destruct (list_reason tph nm_xff hk_xff e CatXffQuoting) eqn:E1; cbn [orelse].
+  { intro H. injection H as <-. apply list_reason_cat in E1. subst. reflexivity. }
+  destruct (list_reason tph nm_xfh hk_xfh e CatXfhQuoting) eqn:E2; cbn [orelse].
+  { intro H. injection H as <-. apply list_reason_cat in E2. subst. reflexivity. }
+  destruct (single_reason tph nm_xfproto hk_xfproto e CatProtoQuoting CatProtoSeveral) eqn:E3; cbn [orelse].
+  { intro H. injection H as <-. apply single_reason_cat in E3 as [->| ->]; reflexivity. }
+  destruct (single_reason tph nm_xfport hk_xfport e CatPortQuoting CatPortSeveral) eqn:E4; cbn [orelse].
+  { intro H. injection H as <-. apply single_reason_cat in E4 as [->| ->]; reflexivity. }
+  destruct (fwd_active tph e); [|discriminate].
+  intro H. pose proof (forwarded_reason_header _ _ H) as Hh.
+  destruct c; try reflexivity; vm_compute in Hh; discriminate.
+Qed.
+
+Lemma proxy_key_cases key : is_proxy_key key = true ->
+  key = k_xff \/ key = k_xfh \/ key = k_xfproto \/ key = k_xfport \/ key = k_xfby \/ key = k_fwd.
+Proof.
+  unfold is_proxy_key, proxy_keys. cbn [existsb]. intro H.
+  repeat (apply orb_true_iff in H as [H|H]); try discriminate; apply beqb_eq in H; subst key; auto 10.
+Qed.
+
+Ltac kb :=
+  repeat match goal with
+  | |- context [beqb ?a ?b] =>
+    let v := eval vm_compute in (beqb a b) in
+    match v with true => change (beqb a b) with true | false => change (beqb a b) with false end
+  end.
+
+(* ---- the main theorem ---------------------------------------------------------------------------------------------- *)
+Theorem trusted_exact c e p :
+  on_trusted_path c e = true -> has_key k_url_scheme e -> trusted_proxy_count c = Zpos p ->
+  match refusal_reason (tph_of c) (Pos.to_nat p) e with
+  | Some cat => middleware c e = Malformed (category_header (fwd_active (tph_of c) e) cat)
+  | None => exists o, middleware c e = Ok o /\
+                      forall key, lookup key o = spec_out (tph_of c) (Pos.to_nat p) (clear_untrusted c) e key
+  end.
+Proof.
+  intros Hp Hk Hc. unfold middleware, on_trusted_path in *.
+  destruct (lookup k_remote_addr e) as [peer|]; [|discriminate]. rewrite Hp.
+  unfold parse_proxy_headers. fold (tph_of c). set (tph := tph_of c). rewrite Hc.
+  pose proof (select_exact e p tph) as SE. unfold refusal_reason.
+  destruct (syntax_reason tph e) as [cat|] eqn:Es; cbn [orelse answer] in *.
+  { rewrite SE. cbn [bind]. rewrite (syntax_reason_header _ _ _ _ Es). reflexivity. }
+  rewrite SE. cbn [bind].
+  set (st := sel_state p tph e) in *.
+  destruct (sel_state_selection p tph e) as [Hsel Hfw]. fold st in Hsel, Hfw.
+  pose proof (apply_exact st (select_keys _ _ _ _ _ SE Hk)) as AE. rewrite Hsel, Hfw in AE.
+  destruct (selection_reason (select tph (Pos.to_nat p) e)) as [cat|].
+  { rewrite AE. reflexivity. }
+  destruct AE as (s' & -> & Hu & He). cbn [bind]. eexists. split; [reflexivity|].
+  intro key. unfold spec_out.
+  assert (Hunt : unt s' = unt st) by exact Hu.
+  destruct (is_proxy_key key) eqn:Ek.
+  - (* a proxy header key *)
+    assert (Hl : lookup key (env s') = lookup key (env st)) by (rewrite He; apply meta_out_proxy_key; exact Ek).
+    pose proof (sel_unt p tph e) as SU. fold st in SU.
+    pose proof (sel_env_xff p tph e) as X1. pose proof (sel_env_xfh p tph e) as X2. pose proof (sel_env_fwd p tph e) as X3.
+    fold st in X1, X2, X3. change hk_fwd with k_fwd in X3.
+    assert (Xo : forall k, beqb k k_xff = false -> beqb k k_xfh = false -> beqb k k_fwd = false ->
+                 lookup k (env st) = lookup k e) by (intros; apply sel_env_other; assumption).
+    unfold headers_out, header_out, kind_untrusted.
+    change (trusts tph nm_fwd) with (has tph n_fwd). change (trusts tph nm_xff) with (has tph n_xff).
+    change (trusts tph nm_xfh) with (has tph n_xfh). change (trusts tph nm_xfproto) with (has tph n_xfproto).
+    change (trusts tph nm_xfport) with (has tph n_xfport). change (trusts tph nm_xfby) with (has tph n_xfby).
+    change hk_xff with k_xff. change hk_xfh with k_xfh. change hk_xfproto with k_xfproto.
+    change hk_xfport with k_xfport. change hk_xfby with k_xfby. change hk_fwd with k_fwd.
+    assert (FA : fwd_active tph e = has tph n_fwd && truthy (hdr k_fwd e)) by reflexivity.
+    apply proxy_key_cases in Ek.
+    destruct (clear_untrusted c).
+    + rewrite clear_lookup, Hunt, SU, Hl. cbn [andb].
+      destruct Ek as [->|[->|[->|[->|[->| ->]]]]];
+        kb; cbn [andb orb negb];
+        rewrite ?X1, ?X2, ?X3, ?FA;
+        try (rewrite Xo by reflexivity);
+        unfold present, hdr;
+        destruct (has tph n_fwd); cbn [u_for u_host u_proto u_port u_by u_fwd u_all_but_fwd andb orb negb];
+        try reflexivity;
+        repeat match goal with
+        | |- context [has tph ?n] => destruct (has tph n); cbn [andb orb negb]
+        | |- context [lookup ?k e] => destruct (lookup k e); cbn [andb orb negb]
+        end; try reflexivity.
+    + rewrite Hl. cbn [andb].
+      destruct Ek as [->|[->|[->|[->|[->| ->]]]]];
+        kb; cbn [andb orb negb];
+        rewrite ?X1, ?X2, ?X3, ?FA;
+        try (rewrite Xo by reflexivity);
+        unfold hdr;
+        repeat match goal with
+        | |- context [has tph ?n] => destruct (has tph n); cbn [andb orb negb]
+        | |- context [lookup ?k e] => destruct (lookup k e); cbn [andb orb negb truthy]
+        end; try reflexivity.
+  - (* any other key *)
+    destruct (not_proxy_key key Ek) as (N1 & N2 & N3 & N4 & N5 & N6).
+    assert (Hfin : lookup key (env s') = meta_out (select tph (Pos.to_nat p) e) e key).
+    { rewrite He. apply meta_out_ext; [|exact Ek].
+      intros k Hk'. destruct (not_proxy_key k Hk') as (M1 & M2 & _ & _ & _ & M6). apply sel_env_other; assumption. }
+    destruct (clear_untrusted c); [|exact Hfin].
+    rewrite clear_lookup, N1, N2, N3, N4, N5, N6, !andb_false_r. exact Hfin.
+Qed.
